@@ -600,6 +600,23 @@ func step(st *hstate, f []string) []string {
 		return []string{"ok"}
 	case "probe":
 		return probe(st, f[1:])
+	case "loaddir", "setlog":
+		return []string{"ok"}
+	case "tear":
+		// tear <n>: cut n bytes off the end of the newest log file (a torn write), log closed
+		segs := listSegs(st.dir)
+		if len(segs) == 0 {
+			return []string{"err NotExist"}
+		}
+		last := segs[len(segs)-1]
+		fi, err := os.Stat(last.Log)
+		if err != nil {
+			return e(err)
+		}
+		if err := os.Truncate(last.Log, fi.Size()-atoi(f[1])); err != nil {
+			return e(err)
+		}
+		return []string{"ok"}
 	case "sleepms":
 		time.Sleep(time.Duration(atoi(f[1])) * time.Millisecond)
 		return []string{"ok"}
